@@ -124,22 +124,79 @@ pub fn supervise(id: &str, tier_arg: &str) -> ExitCode {
                 Some(c) => format!("exit code {c}"),
                 None => "killed by signal (abort / stack overflow / out of memory)".to_string(),
             };
-            eprintln!("worker died: {why}; attributing to the runs in flight: {crumbs:?}");
+            eprintln!("worker died: {why}; re-running the runs in flight one by one: {crumbs:?}");
             let seed = env_u64("VERIF_SEED").unwrap_or(DEFAULT_SEED);
             let dir = verif_dir().join("replays");
             let _ = std::fs::create_dir_all(&dir);
-            let path = dir.join(format!("{id}-{seed}-crash.json"));
-            let v = json!({
-                "property": id, "simulator": "crash", "seed": seed, "tier": tier,
-                "runs_in_flight": crumbs, "why": why,
-                "expected": {"property": id, "class": "process_died", "site": "worker", "step": 0, "detail": why},
-            });
-            let _ = std::fs::write(&path, serde_json::to_string_pretty(&v).unwrap());
+            let mut reported = 0;
+            for c in &crumbs {
+                let Some(idx) = c.split("run_index=").nth(1).and_then(|x| x.trim().parse::<u64>().ok()) else { continue };
+                let path = dir.join(format!("{id}-{seed}-{idx}-process_died.json"));
+                let _ = std::fs::remove_file(&path);
+                let mut ch = Command::new(&exe)
+                    .arg("runone")
+                    .arg(id)
+                    .arg(idx.to_string())
+                    .arg(&path)
+                    .arg(&tier)
+                    .stdout(Stdio::null())
+                    .stderr(Stdio::null())
+                    .spawn()
+                    .expect("spawn runone");
+                let t0 = Instant::now();
+                let died = loop {
+                    match ch.try_wait() {
+                        Ok(Some(st)) => break !matches!(st.code(), Some(0) | Some(1)),
+                        Ok(None) => {
+                            if t0.elapsed() > Duration::from_secs(180) {
+                                let _ = ch.kill();
+                                let _ = ch.wait();
+                                break true;
+                            }
+                            std::thread::sleep(Duration::from_millis(20));
+                        }
+                        Err(_) => break true,
+                    }
+                };
+                if died && path.exists() {
+                    println!("VIOLATION property={id} replay={}", path.display());
+                    println!("  class=process_died detail=run {idx} kills the process ({why}); the file holds the literal history up to the fatal step");
+                    reported += 1;
+                } else {
+                    let _ = std::fs::remove_file(&path);
+                }
+            }
+            if reported == 0 {
+                let path = dir.join(format!("{id}-{seed}-crash.json"));
+                let v = json!({
+                    "property": id, "simulator": "crash", "seed": seed, "tier": tier,
+                    "runs_in_flight": crumbs, "why": why,
+                    "expected": {"property": id, "class": "process_died", "site": "worker", "step": 0, "detail": why},
+                });
+                let _ = std::fs::write(&path, serde_json::to_string_pretty(&v).unwrap());
+                println!("VIOLATION property={id} replay={}", path.display());
+            }
             write_evidence_minimal(id, &tier, seed, start.elapsed(), 1, &why);
-            println!("VIOLATION property={id} replay={}", path.display());
             ExitCode::from(1)
         }
     }
+}
+
+/// Re-executes one seeded run with step-level breadcrumbs (used after a worker death).
+pub fn runone(id: &str, run_index: u64, crumb: &str, tier: &str) -> ExitCode {
+    let seed = env_u64("VERIF_SEED").unwrap_or(DEFAULT_SEED);
+    let rs = run_seed(seed, id, run_index);
+    crate::common::set_step_crumb(Some(PathBuf::from(crumb)));
+    match id {
+        "C03" | "C04" | "C05" | "C06" => {
+            let _ = pwlsim::seeded_history_run(id, rs, tier == "thorough" && run_index % 2 == 1);
+        }
+        "C11" => {
+            let _ = pwlsim::seeded_fault_scenario(rs, tier == "thorough");
+        }
+        _ => {}
+    }
+    ExitCode::SUCCESS
 }
 
 fn crumb_dir(id: &str) -> PathBuf {
@@ -446,7 +503,8 @@ pub fn trace(id: &str, run_index: u64) -> ExitCode {
     let rs = run_seed(seed, id, run_index);
     match id {
         "C03" | "C04" | "C05" | "C06" => {
-            let r = pwlsim::seeded_history_run_traced(id, rs, true);
+            let deep = tier_of("quick") == "thorough" && run_index % 2 == 1;
+            let r = pwlsim::seeded_history_run_traced(id, rs, deep, true);
             println!("violations: {:?}", r.violations);
         }
         "C11" => {
@@ -488,6 +546,33 @@ pub fn replay_file(path: &str) -> ExitCode {
                     return ExitCode::from(2);
                 }
             };
+            if rep.expected.as_ref().map(|e| e.class == "process_died").unwrap_or(false) && std::env::var("AFFSIM_INNER").is_err() {
+                // the history is expected to kill the process: run it in a child
+                let exe = std::env::current_exe().expect("current_exe");
+                let mut ch = Command::new(exe).arg("replay").arg(path).env("AFFSIM_INNER", "1").stdout(Stdio::null()).stderr(Stdio::null()).spawn().expect("spawn");
+                let t0 = Instant::now();
+                let died = loop {
+                    match ch.try_wait() {
+                        Ok(Some(st)) => break st.code().is_none() || st.code() == Some(134),
+                        Ok(None) => {
+                            if t0.elapsed() > Duration::from_secs(180) {
+                                let _ = ch.kill();
+                                let _ = ch.wait();
+                                break true;
+                            }
+                            std::thread::sleep(Duration::from_millis(20));
+                        }
+                        Err(_) => break true,
+                    }
+                };
+                if died {
+                    println!("REPRODUCED exactly: the history kills the process at step {}", rep.expected.as_ref().unwrap().step);
+                    println!("VIOLATION property={} replay={path}", rep.property);
+                    return ExitCode::from(1);
+                }
+                println!("NOT REPRODUCED: the history no longer kills the process");
+                return ExitCode::SUCCESS;
+            }
             let res = pwlsim::run_scenario(&rep.scenario);
             let got = match &rep.expected {
                 Some(e) => res
@@ -596,7 +681,7 @@ fn minimise_and_report(id: &str, seed: u64, tier: &str, firsts: BTreeMap<String,
 
 fn worker_history(id: &str, tier: &str, seed: u64) -> ExitCode {
     let default_runs = match (id, tier) {
-        (_, "thorough") => 4_000_000,
+        (_, "thorough") => 1_500_000,
         _ => 120_000,
     };
     let runs = env_u64("VERIF_RUNS").unwrap_or(default_runs);
@@ -618,7 +703,8 @@ fn worker_history(id: &str, tier: &str, seed: u64) -> ExitCode {
     let out = run_batch(&batch, Acc::default, |run_index, acc: &mut Acc| {
         crumbs.write(run_index, seed);
         let rs = run_seed(seed, id, run_index);
-        let res = pwlsim::seeded_history_run(id, rs);
+        let deep = tier == "thorough" && run_index % 2 == 1;
+        let res = pwlsim::seeded_history_run(id, rs, deep);
         let mut st = res.stats;
         for (k, v) in crate::logprobe::take() {
             *st.probes.entry(k.to_string()).or_default() += v;
